@@ -97,6 +97,11 @@ type Scenario struct {
 	Keys     [2]int    `json:"keys"`
 	Sessions []Session `json:"sessions"`
 	F        *Faults   `json:"f,omitempty"`
+	// Shadow > 0 (clean mode): with probability 1/Shadow a data message is
+	// preceded on the wire by a copy of itself whose authenticated part was
+	// modified. The copy must be refused without any effect, so the genuine
+	// message behind it is still subject to the exact oracle.
+	Shadow int `json:"shadow,omitempty"`
 }
 
 var lenEdges = []int{0, 1, 2, 250, 251, 252, 253, 254, 255, 256, 257, 506, 507, 508, 509, 510, 511, 512, 1019, 1020, 1999, 2000}
@@ -193,6 +198,8 @@ func gen(r *rand.Rand, prop, tier string, index int) any {
 			}
 		}
 		s.F = f
+	} else if r.IntN(3) == 0 {
+		s.Shadow = []int{1, 2, 4}[r.IntN(3)]
 	}
 	return s
 }
@@ -213,6 +220,11 @@ func genSession(r *rand.Rand, mode string, last bool, maxLen int, budget *int) S
 				at = r.IntN(len(ops) + 1)
 			}
 			ops = append(ops[:at], append([]Op{{K: "query"}}, ops[at:]...)...)
+			if r.IntN(5) == 0 {
+				// the query goes out twice before anything comes back: the
+				// peer starts the key exchange twice with fresh values
+				ops = append(ops[:at], append([]Op{{K: "query"}}, ops[at:]...)...)
+			}
 		}
 		nd := r.IntN(5)
 		if r.IntN(5) == 0 {
@@ -317,13 +329,15 @@ type lmsg struct {
 	orig    []byte // the encoded message as the sender produced it (fragments joined); nil if it could not be determined
 	dataIdx int    // index into the sender's sent-data log, -1 otherwise
 	mutated bool
+	ake     akeDesc // reference model: the exchange a Reveal Signature / Signature message belongs to
 }
 
 type item struct {
-	seq  int
-	b    []byte
-	lm   *lmsg // nil for injected items
-	frag int
+	seq    int
+	b      []byte
+	lm     *lmsg // nil for injected items
+	frag   int
+	shadow bool // part of a modified copy put in front of a genuine data message
 }
 
 // witness follows the items handed to one receiver: when all items of a
@@ -375,7 +389,8 @@ type sim struct {
 	smpDirty      bool
 	faults        int
 	emitted       int
-	allMsgs       [][]byte // every wire item ever sent (for replay injection)
+	allMsgs       [][]byte  // every wire item ever sent (for replay injection)
+	ake           *akeModel // clean mode: reference model of the key exchange (per session)
 	delivered     int
 	dataDelivered int
 }
@@ -554,9 +569,9 @@ func modified(orig, got []byte) (same, framed bool) {
 }
 
 // emit puts what one API call returned on the wire.
-func (m *sim) emit(from, kind int, msgs [][]byte, dataIdx int) {
+func (m *sim) emit(from, kind int, msgs [][]byte, dataIdx int) *lmsg {
 	if len(msgs) == 0 {
-		return
+		return nil
 	}
 	m.emitted++
 	lm := &lmsg{id: m.lmID, from: from, kind: kind, n: len(msgs), orig: assemble(msgs), dataIdx: dataIdx}
@@ -585,6 +600,15 @@ func (m *sim) emit(from, kind int, msgs [][]byte, dataIdx int) {
 		hh.Write(b)
 	}
 	rt.Event("tx %s %s#%d items=%d len=%d mutated=%v hash=%08x", names[from], kindName[kind], lm.id, lm.n, len(lm.orig), lm.mutated, hh.Sum32())
+	if m.clean && m.s.Shadow > 0 && kind == kData && lm.orig != nil && m.c.Sim.ChooseP(1, m.s.Shadow) {
+		if sh := m.shadowOf(lm.orig); sh != nil {
+			rt.Fault("shadow-modified-copy")
+			for _, b := range refragment(sh, msgs) {
+				m.side[from].q = append(m.side[from].q, &item{seq: m.seq, b: b, shadow: true})
+				m.seq++
+			}
+		}
+	}
 	for i, b := range msgs {
 		it := &item{seq: m.seq, b: append([]byte(nil), b...), lm: lm, frag: i}
 		m.seq++
@@ -593,6 +617,7 @@ func (m *sim) emit(from, kind int, msgs [][]byte, dataIdx int) {
 			m.allMsgs = append(m.allMsgs, it.b)
 		}
 	}
+	return lm
 }
 
 // tapeBytes returns n bytes determined by one tape value.
@@ -682,6 +707,40 @@ func (m *sim) mutate(text []byte) []byte {
 	return encodeMsg(out)
 }
 
+// shadowOf returns a copy of the encoded data message text in which one
+// authenticated field behind the 3-byte header differs (so that it is still a
+// data message): the counter moved up or down, or a byte of the flags, key
+// ids, DH value, ciphertext or authenticator changed.
+func (m *sim) shadowOf(text []byte) []byte {
+	bin := decodeMsg(text)
+	al := authLen(bin)
+	if al == 0 {
+		return nil
+	}
+	c := m.c
+	out := append([]byte(nil), bin...)
+	ctr := 16 + int(binary.BigEndian.Uint32(bin[12:]))
+	how := c.Choose(5)
+	switch how {
+	case 0, 1: // counter upwards
+		v := binary.BigEndian.Uint64(out[ctr:])
+		binary.BigEndian.PutUint64(out[ctr:], v+uint64(1+c.Choose(3)))
+	case 2: // counter to the maximum
+		for i := 0; i < 8; i++ {
+			out[ctr+i] = 0xff
+		}
+	case 3: // the authenticator
+		out[al-1-c.Choose(20)] ^= byte(1 + c.Choose(255))
+	default: // any authenticated byte behind the header
+		out[3+c.Choose(al-3)] ^= byte(1 + c.Choose(255))
+	}
+	if bytes.Equal(out[:al], bin[:al]) {
+		return nil
+	}
+	rt.Event("shadow copy how=%d", how)
+	return encodeMsg(out)
+}
+
 func (m *sim) enc(s int) bool { return m.side[s].conv.IsEncrypted() }
 
 func (m *sim) inFlight(kinds ...int) int {
@@ -765,6 +824,19 @@ func (m *sim) deliver(to int, it *item) {
 		desc = fmt.Sprintf("%s#%d item %d/%d", kindName[kind], it.lm.id, it.frag+1, it.lm.n)
 	}
 	ctx := fmt.Sprintf("input %s, %d bytes: %q", desc, len(in), clip(in, 200))
+	var exp *akeExpect
+	if m.clean && m.ake != nil && !m.ake.off && asm != nil && !it.shadow {
+		switch kind {
+		case kQuery:
+			e := m.ake.query(to)
+			exp = &e
+		case kAKE:
+			if bin := decodeMsg(asm); len(bin) >= 3 {
+				e := m.ake.receive(to, bin, it.lm.ake)
+				exp = &e
+			}
+		}
+	}
 	if !m.guard("receive", to, ctx, func() { out, enc, ch, send, err = sd.conv.Receive(in) }) {
 		return
 	}
@@ -772,6 +844,15 @@ func (m *sim) deliver(to int, it *item) {
 	m.c.State("%s kind=%s enc=%v/%v change=%d err=%v smp=%v", m.s.Mode, kindName[kind], m.enc(0), m.enc(1), ch, err != nil, m.smp != nil)
 
 	accepted := err == nil && len(out) > 0
+	if it.shadow {
+		// a modified data message: refused, and nothing else happens
+		if len(out) > 0 || ch != xotr.NoChange || len(send) > 0 {
+			m.c.Violate(Prop, "modified-data-accepted", "side %s: a data message whose authenticated part was modified had an effect: Receive returned %d bytes (enc=%v), security change %d, %d messages to send, err=%v", names[to], len(out), enc, ch, len(send), err)
+			m.dead = true
+		}
+		rt.Probe("shadow-copy-refused")
+		return
+	}
 
 	// ---- oracles common to both modes
 	if ch == xotr.SMPComplete {
@@ -835,6 +916,40 @@ func (m *sim) deliver(to int, it *item) {
 		}
 	}
 
+	// ---- reference model of the key exchange
+	if exp != nil {
+		var rbin []byte
+		rtyp := 0
+		if len(send) > 0 {
+			if rbin = decodeMsg(assemble(send)); len(rbin) >= 3 {
+				rtyp = int(rbin[2])
+			} else {
+				rtyp = -1
+			}
+		}
+		switch {
+		case rtyp != exp.typ:
+			m.c.Violate(Prop, "ake-reply-deviates", "side %s received %s and answered with %s (err=%v); the protocol prescribes %s: %s", names[to], desc, akeTypeName(rtyp), err, akeTypeName(exp.typ), exp.rule)
+			m.dead = true
+			return
+		case exp.same != nil && !bytes.Equal(rbin, exp.same):
+			m.c.Violate(Prop, "ake-reply-deviates", "side %s received %s and answered with %s that differs from the one it sent before; the protocol prescribes a retransmission: %s", names[to], desc, akeTypeName(rtyp), exp.rule)
+			m.dead = true
+			return
+		case exp.encNow && !sd.conv.IsEncrypted():
+			m.c.Violate(Prop, "ake-incomplete", "side %s received %s, which completes the key exchange by the rules of the protocol (%s), but is not in the encrypted state (err=%v)", names[to], desc, exp.rule, err)
+			m.dead = true
+			return
+		}
+		if exp.after != nil {
+			exp.after(rbin)
+		}
+		rt.Probe("ake-model-step")
+		if exp.same != nil {
+			rt.Probe("ake-model-retransmission-" + fmt.Sprint(exp.typ))
+		}
+	}
+
 	// ---- replies
 	if len(send) > 0 {
 		k := kOther
@@ -850,7 +965,9 @@ func (m *sim) deliver(to int, it *item) {
 				rt.Probe("reply-to-" + kindName[kind])
 			}
 		}
-		m.emit(to, k, send, -1)
+		if lm := m.emit(to, k, send, -1); lm != nil && exp != nil {
+			lm.ake = exp.desc
+		}
 	}
 }
 
@@ -1178,6 +1295,9 @@ func (m *sim) loadSession(i int) {
 	m.early = starts == 1 && !tags
 	m.settle = false
 	m.ending = -1
+	if m.clean {
+		m.ake = &akeModel{}
+	}
 	rt.Event("session %d early=%v", i, m.early)
 }
 
@@ -1509,6 +1629,12 @@ func run(c *core.Ctx, scnAny any) {
 	if !(m.enc(0) && m.enc(1)) {
 		if !queried {
 			rt.Probe("operations-left-without-query") // shrunk scenarios: nobody started a key exchange
+			return
+		}
+		if m.ake != nil && !(m.ake.side[0].enc && m.ake.side[1].enc) {
+			// three or more crossing starts: by the rules of the protocol both
+			// sides can end up waiting for the other (reference model)
+			rt.Probe("ake-protocol-deadlock")
 			return
 		}
 		c.Violate(Prop, "ake-incomplete", "query and key exchange messages were all delivered, nothing is in flight, but the encrypted state was not reached on both sides: A.IsEncrypted=%v B.IsEncrypted=%v (session %d, queries sent A=%v B=%v, FragmentSize A=%d B=%d)", m.enc(0), m.enc(1), m.sess, m.side[0].queried, m.side[1].queried, s.Frag[0], s.Frag[1])
